@@ -294,7 +294,7 @@ func vfPeerClientMain() int {
 }
 
 type vfServerScript struct {
-	Fault    string `json:"fault"`    // "", exit-before-answer, garbage, empty, oversize, no-cert, die-after-conns
+	Fault    string `json:"fault"`    // "", exit-before-answer, garbage, empty, oversize, no-cert, die-after-conns, ignore-term
 	FaultFor string `json:"faultFor"` // only for instances whose "<protocol>/<version>/<tls>" matches ("" = all)
 	After    int    `json:"after"`
 	HTTPLog  bool   `json:"httpLog"` // parse an HTTP/1.1 request on each connection and log its test name
@@ -373,6 +373,19 @@ func vfPeerServerMain() int {
 		_ = internal.WriteDelimitedMessage(os.Stdout, resp)
 	}
 	<-sig
+	if fault == "ignore-term" {
+		// a server that does not react to being asked to stop (a wrapper script, a hung shutdown hook): it is the runner's
+		// job to get rid of it; it ends by itself only much later
+		vfPeerLog(vfPeerEvent{Event: "server-stop", Port: port, Identity: identity, Name: "sigterm-ignored"})
+		deadline := time.After(120 * time.Second)
+		for {
+			select {
+			case <-sig:
+			case <-deadline:
+				return 9
+			}
+		}
+	}
 	vfPeerLog(vfPeerEvent{Event: "server-stop", Port: port, Identity: identity, Name: "sigterm"})
 	_ = lis.Close()
 	return 0
